@@ -23,6 +23,8 @@ def mk_query(prog, doms, classes=None, quant="an", **kw):
     q = {"vars": [{"cls": (classes or ["A"] * nv)[i], "dom": doms[i]} for i in range(nv)],
          "flats": prog.get("flats", []), "bound": prog.get("bound", []), "desc": prog["desc"], "quant": quant,
          "sel": prog["sel"], "cond": prog["cond"]}
+    if prog.get("boundflats"):
+        q["boundflats"] = prog["boundflats"]
     q.update(kw)
     q = normalize(q, nv)
     used = q.pop("_used")
@@ -36,6 +38,14 @@ def mk_query(prog, doms, classes=None, quant="an", **kw):
 
 
 _DECL_RNG = random.Random(12345)
+
+
+def _sample(rng, progs, n):
+    """A random sample of n programs that always contains the queries without any condition (few, and a shape of
+    their own)."""
+    bare = [p for p in progs if p.get("cond", {}).get("k") == "true"]
+    rest = [p for p in progs if p.get("cond", {}).get("k") != "true"]
+    return bare + rng.sample(rest, max(0, min(len(rest), n - len(bare))))
 
 
 def drain_ev(qi=1, eqto=0, eqoff=0, eqbag=0):
@@ -118,7 +128,7 @@ class QueryCheck:
             for t in traces:
                 if "build_exc" in t:      # construction failed: every event is an exception
                     t["evs"] = [dict(ev, exc="build:" + t["build_exc"][:60], rows=[], out="build", row=[], insts=[], symcalls=0)
-                                if ev["op"] != "cfg" else ev for ev in by_id[t["id"]]["evs"]]
+                                if ev["op"] not in ("cfg", "build") else ev for ev in by_id[t["id"]]["evs"]]
             rej = run.validate(module, traces, strip=("build_exc", "build_tb", "family"))
             for t in traces:
                 key = nontrivial(t)
@@ -161,7 +171,8 @@ def check_C01(tier, seed):
     run.rule = ("programs: every condition tree TLC's builder machine reaches within the bound (BFS) plus random "
                 "walks (-simulate); each replayed on a covering world and a random world with a permuted domain; "
                 "non-trivial = result neither empty nor the whole domain; distinct by (condition, selection)")
-    run.assumptions = QUERY_ASSUMPTIONS + ["domains list distinct objects (C01's stated domain)"]
+    run.assumptions = QUERY_ASSUMPTIONS + ["domains list distinct objects (C01's stated domain); in a part of the worlds distinct objects "
+                                           "compare equal (value-based __eq__), conditions there compare values, not objects"]
     qc = QueryCheck(run)
     rng = qc.rng
     quick = tier == "quick"
@@ -187,6 +198,13 @@ def check_C01(tier, seed):
             dom = list(range(1, len(W["objs"]) + 1))
             rng.shuffle(dom)
             qc.add(W, [mk_query(p, [dom])], [drain_ev()], dump_graph=True)
+        if not quick or rng.random() < 0.4:
+            # distinct objects that compare equal to one another are distinct all the same (each is judged, and
+            # returned, on its own)
+            W = datasets.value_equal_world(rng, rng.randint(3, 6))
+            dom = list(range(1, len(W["objs"]) + 1))
+            rng.shuffle(dom)
+            qc.add(W, [mk_query(p, [dom])], [drain_ev(), drain_ev(1, eqto=1)])
     qc.execute(_nontrivial_rows)
     return run.finish()
 
@@ -242,9 +260,9 @@ def check_C02(tier, seed):
         progs = _programs(run, nv, quick, sim_quick=800, sim_full=10000, leaf_quick=9 if nv == 2 else 8,
                           leaf_full=24 if nv == 2 else 16)
         if quick:
-            progs = rng.sample(progs, min(len(progs), 2500))
+            progs = _sample(rng, progs, min(len(progs), 2500))
         elif len(progs) > 60000:
-            progs = rng.sample(progs, 60000)
+            progs = _sample(rng, progs, 60000)
             run.exhaustive = False
         if nv == 2:
             # every tree of three join conditions (and/or in both shapes): de-duplication across branches needs three leaves
@@ -275,12 +293,17 @@ def _negate(c, form="fn"):
     return {"k": "not", "c": c, "form": form}
 
 
+def _conjuncts(c):
+    return _conjuncts(c["l"]) + _conjuncts(c["r"]) if c["k"] == "and" else [c]
+
+
 def check_C03(tier, seed):
     run = Run("C03", tier, seed)
     run.rule = ("for every condition c of the generator (G1 and G2; c may already contain negations): three queries "
                 "built from scratch - c, not_(c), not_(not_(c)) (also the ~ operator form) - each judged against "
                 "the denotation, and not_(not_(c)) must return the rows of c; plus generated trees that contain "
-                "negations at any depth; non-trivial = c and not_(c) both non-empty")
+                "negations at any depth; plus not_ applied to the descriptor itself, not_(entity(x, c1, ..)), re-evaluated "
+                "with caching on and off; non-trivial = c and not_(c) both non-empty")
     run.assumptions = QUERY_ASSUMPTIONS
     qc = QueryCheck(run)
     rng = qc.rng
@@ -291,11 +314,13 @@ def check_C03(tier, seed):
     for nv in (1, 2):
         progs = _programs(run, nv, quick, sim_quick=600, sim_full=8000, leaf_full=30 if nv == 1 else 20)
         if quick:
-            progs = rng.sample(progs, min(len(progs), 1500))
+            progs = _sample(rng, progs, min(len(progs), 1500))
         elif len(progs) > 50000:
-            progs = rng.sample(progs, 50000)
+            progs = _sample(rng, progs, 50000)
             run.exhaustive = False
         for p in progs:
+            if p["cond"]["k"] == "true":      # nothing to negate
+                continue
             W, doms = _world_and_doms(rng, nv, quick, cover_p=0.5 if nv == 1 else 0.2)
             if nv == 1:
                 doms = [list(range(1, len(W["objs"]) + 1))]
@@ -304,6 +329,15 @@ def check_C03(tier, seed):
             p2 = dict(p, cond=_negate(_negate(p["cond"], form), form))
             qc.add(W, [mk_query(p, doms), mk_query(p1, doms), mk_query(p2, doms)],
                    [drain_ev(1), drain_ev(2), drain_ev(3, eqto=1)], dump_graph=True)
+            if not quick or rng.random() < 0.5:
+                # not_ applied to the descriptor - not_(entity(x, c1, c2)) - is the negation of its conditions taken
+                # together; evaluated repeatedly under both cache configurations
+                c = p["cond"]
+                if c["k"] == "and" and rng.random() < 0.7:
+                    c = {"k": "conj", "cs": _conjuncts(c)}
+                qc.add(W, [mk_query(p1, doms), mk_query(dict(p, cond=c), doms, notdesc=True)],
+                       [drain_ev(1), drain_ev(2, eqto=1), drain_ev(2, eqto=1), {"op": "cfg", "caching": False},
+                        drain_ev(2, eqto=1), drain_ev(2, eqto=1)], tag="negated-descriptor")
 
     def nontrivial(t):
         evs = t["evs"]
@@ -331,9 +365,9 @@ def check_C06(tier, seed):
         sels = [("entity", [{"k": "var", "i": 1}])] if nv == 1 else \
             [("set_of", [{"k": "var", "i": 1}, {"k": "var", "i": 2}]), ("set_of", [{"k": "var", "i": 2}, {"k": "var", "i": 1}])]
         if quick:
-            progs = rng.sample(progs, min(len(progs), 1500))
+            progs = _sample(rng, progs, min(len(progs), 1500))
         elif len(progs) > 40000:
-            progs = rng.sample(progs, 40000)
+            progs = _sample(rng, progs, 40000)
             run.exhaustive = False
         for p in progs:
             desc, sel = rng.choice(sels)
@@ -372,7 +406,8 @@ def check_C20(tier, seed):
                 "probed with check and retrieve; non-trivial = a history in which some retrieval returns >=1 entry and "
                 "some lookup matches a partial (wildcard) entry")
     run.assumptions = ["coverage checks are probed only for lookups that bind >=1 key (C20's domain); inserts may bind no key",
-                       "values and outputs are plain hashable Python values",
+                       "values and outputs are plain hashable Python values; every history is run over an alphabet of "
+                       "ordinary values and over one whose first members are falsy (0, '', ...)",
                        "the reference store CacheIndexOps!RetrieveRef/CheckRef (TLA+) is the oracle"]
     # (1) design level: the index contract is satisfiable by the nested-dict mechanism when the descent follows every
     #     matching branch (PreferWildcard = FALSE): all histories, all lookups
@@ -385,8 +420,9 @@ def check_C20(tier, seed):
                        invariants=("Export",), count=False)
     lookups = [list(l) for l in itertools.product(range(nv + 1), repeat=nk)]
     for h in hists:
-        cases.append({"family": "index", "nkeys": nk, "nvals": nv, "lookups": lookups,
-                      "ops": [{"op": e["op"], "b": e["b"], "o": e["o"]} for e in h]})
+        for alpha in ("int", "falsy"):          # the same history over ordinary values and over values that are falsy
+            cases.append({"family": "index", "nkeys": nk, "nvals": nv, "lookups": lookups, "alpha": alpha,
+                          "ops": [{"op": e["op"], "b": e["b"], "o": e["o"]} for e in h]})
     # (3) random histories beyond the bound
     for _ in range(300 if quick else 6000):
         nk2, nv2 = rng.choice([(3, 2), (4, 2), (3, 3), (4, 3)])
@@ -401,7 +437,7 @@ def check_C20(tier, seed):
                 ops.append({"op": "insert", "b": b, "o": rng.choice([1, 1, 2, k + 1])})     # 1 is stored as a falsy output
         allk = [list(l) for l in itertools.product(range(nv2 + 1), repeat=nk2)]
         cases.append({"family": "index", "nkeys": nk2, "nvals": nv2, "lookups": rng.sample(allk, min(len(allk), 12)),
-                      "ops": ops})
+                      "alpha": rng.choice(["int", "falsy"]), "ops": ops})
     for k, c in enumerate(cases):
         c["id"] = k + 1
     traces = run.replay(cases)
@@ -515,9 +551,9 @@ def check_C19(tier, seed):
     for nv in (1, 2):
         progs = _programs(run, nv, quick, sim_quick=600, sim_full=8000, leaf_full=49 if nv == 1 else 34)
         if quick:
-            progs = rng.sample(progs, min(len(progs), 2000))
+            progs = _sample(rng, progs, min(len(progs), 2000))
         elif len(progs) > 50000:
-            progs = rng.sample(progs, 50000)
+            progs = _sample(rng, progs, 50000)
             run.exhaustive = False
         for p in progs:
             n = rng.randint(2, 5)
@@ -630,6 +666,12 @@ def check_C07(tier, seed):
             dom = list(range(1, len(W["objs"]) + 1))
             rng.shuffle(dom)
             cases.append({"id": len(cases) + 1, "family": "lazy", "W": W, "q": mk_query(p, [dom]), "ops": b})
+        # the query without any condition: every element qualifies, still one pull per result
+        W = datasets.random_world(rng, rng.randint(2, 6))
+        dom = list(range(1, len(W["objs"]) + 1))
+        rng.shuffle(dom)
+        cases.append({"id": len(cases) + 1, "family": "lazy", "W": W, "ops": b,
+                      "q": mk_query(dict(progs[0], cond={"k": "true"}, sel=[{"k": "var", "i": 1}], desc="entity"), [dom])})
     traces = run.replay(cases)
     rej = run.validate("TraceLazy", traces)
     by_id = {c["id"]: c for c in cases}
@@ -674,6 +716,8 @@ def _session_events(beh, nq):
             evs.append({"op": "raised", "qi": o["qi"], "at": o["k"], "want": "Boom", "how": "close"})
         elif o["op"] == "cfg":
             evs.append({"op": "cfg", "caching": bool(o["k"])})
+        elif o["op"] == "build":
+            evs.append({"op": "build", "qi": o["qi"]})
     return evs
 
 
@@ -688,22 +732,22 @@ def check_C04(tier, seed):
                 "twice (first vs later evaluations must agree) and a before/after snapshot of the user's lists and "
                 "objects; non-trivial = a full evaluation after an abandoned/aborted one with a non-trivial answer")
     run.assumptions = QUERY_ASSUMPTIONS + ["an abandoned iterator is never resumed after another evaluation started"]
-    run.mc("EvalSession", "histories", constants=dict(NQ=2, MaxLen=4 if quick else 5, WithCfg=False), invariants=("TypeOK",),
+    run.mc("EvalSession", "histories", constants=dict(NQ=2, MaxLen=4 if quick else 5, WithCfg=False, WithBuild=False), invariants=("TypeOK",),
            constraint="Bound")
     # Layer B: the life cycle of an operator result cache over completed, abandoned and aborted evaluations
     run.mc("CacheProtocol", "lifecycle", constants=dict(N=3 if quick else 4, ClearOnAbort=True, ClearResetsMark=True,
                                                          ClearSkipsEmpty=False, MaxLen=10 if quick else 14),
            invariants=("ServesTruth", "MarkMeansComplete"), constraint="Bound")
-    behs = run.export("EvalSession", "export", "BEH", constants=dict(NQ=2, MaxLen=3 if quick else 4, WithCfg=False),
+    behs = run.export("EvalSession", "export", "BEH", constants=dict(NQ=2, MaxLen=3 if quick else 4, WithCfg=False, WithBuild=False),
                       invariants=("Export",), constraint="Bound", count=False)
-    behs += run.export("EvalSession", "walks", "BEH", constants=dict(NQ=2, MaxLen=7, WithCfg=False), invariants=("Export",),
+    behs += run.export("EvalSession", "walks", "BEH", constants=dict(NQ=2, MaxLen=7, WithCfg=False, WithBuild=False), invariants=("Export",),
                        constraint="Bound", simulate=400 if quick else 6000, depth=8, count=False)
     qc = QueryCheck(run)
     progs = {}
-    for nv in (1, 2):
+    for nv in (1, 2, 3):
         ps = run.export("GenQuery", f"G{nv}", "PROG", constants=dict(G="G12", NV=nv, LeafLimit=16 if nv == 1 else 12, MaxLeaves=2,
                                                                       MaxNot=1, NeedNot=False), count=False)
-        ps += run.export("GenQuery", f"G{nv}-sim", "PROG", constants=dict(G="G12", NV=nv, LeafLimit=49 if nv == 1 else 34, MaxLeaves=4,
+        ps += run.export("GenQuery", f"G{nv}-sim", "PROG", constants=dict(G="G12", NV=nv, LeafLimit=(49, 34, 43)[nv - 1], MaxLeaves=4,
                                                                          MaxNot=2, NeedNot=False),
                          simulate=500 if quick else 4000, depth=14, count=False)
         # every single leaf of the full vocabulary (user code in comparison operands, predicates, ...) with and without not_
@@ -714,7 +758,8 @@ def check_C04(tier, seed):
     for b in behs:
         needs_pred = any(o["op"] == "raised" for o in b)
         for _ in range((2 if needs_pred else 1) if quick else 3):
-            nv = rng.choice((1, 2))
+            # three variables: the two queries of the pool may each use a different subset of the shared variables
+            nv = rng.choice((1, 2, 2, 3, 3))
             pool = user_code[nv] if needs_pred and rng.random() < 0.8 else progs[nv]
             W, doms = _world_and_doms(rng, nv, quick)
             qs = [mk_query(rng.choice(pool), doms), mk_query(rng.choice(progs[nv]), doms)]
@@ -763,11 +808,18 @@ CHECKS["C04"] = check_C04
 
 
 # ---------------------------------------------------------------------- C05
-def _c05_events():
-    return [{"op": "cfg", "caching": True}, drain_ev(1), drain_ev(1, eqto=2), drain_ev(1, eqto=2),
-            {"op": "cfg", "caching": False}, drain_ev(2, eqto=2), drain_ev(2, eqto=2),
-            # the same expression object under the other configuration, back and forth
-            drain_ev(1, eqto=2), {"op": "cfg", "caching": True}, drain_ev(2, eqto=2), drain_ev(1, eqto=2)]
+def _c05_events(rng=None):
+    # where the two query objects are constructed: before the history (caching enabled), or as steps of it under a
+    # configuration of their own
+    pre = rng.choice([[], [], [("off", 1), ("off", 2)], [("off", 1), ("on", 2)], [("on", 1), ("off", 2)]]) if rng else []
+    head = []
+    for cfg, qi in pre:
+        head += [{"op": "cfg", "caching": cfg == "on"}, {"op": "build", "qi": qi}]
+    k = len(head) + 2            # position of the first full evaluation: the one every other is compared with
+    return head + [{"op": "cfg", "caching": True}, drain_ev(1), drain_ev(1, eqto=k), drain_ev(1, eqto=k),
+                   {"op": "cfg", "caching": False}, drain_ev(2, eqto=k), drain_ev(2, eqto=k),
+                   # the same expression object under the other configuration, back and forth
+                   drain_ev(1, eqto=k), {"op": "cfg", "caching": True}, drain_ev(2, eqto=k), drain_ev(1, eqto=k)]
 
 
 def check_C05(tier, seed, extra_programs=None):
@@ -786,9 +838,9 @@ def check_C05(tier, seed, extra_programs=None):
         progs = _programs(run, nv, quick, sim_quick=500, sim_full=8000, leaf_quick=10 if nv < 3 else 8,
                           leaf_full=30 if nv == 1 else (24 if nv == 2 else 16))
         if quick:
-            progs = rng.sample(progs, min(len(progs), 900))
+            progs = _sample(rng, progs, min(len(progs), 900))
         elif len(progs) > 30000:
-            progs = rng.sample(progs, 30000)
+            progs = _sample(rng, progs, 30000)
             run.exhaustive = False
         if nv == 3:
             # conditions on three independent variables combined by and_/or_: partial bindings in the operator caches
@@ -799,7 +851,7 @@ def check_C05(tier, seed, extra_programs=None):
         for p in progs:
             W, doms = _world_and_doms(rng, nv, quick)
             q = mk_query(p, doms, declare="random")
-            qc.add(W, [q, copy.deepcopy(q)], _c05_events())
+            qc.add(W, [q, copy.deepcopy(q)], _c05_events(rng))
     # the further grammars: for_all, sub-queries, flatten, concatenate (each re-evaluated under both configurations)
     for g, nvars, fix in (("G3", 2, None), ("G6", 3, None), ("G7i", 1, _no_repeats), ("G7o", 1, _no_repeats), ("G7c", 2, None)):
         gp = run.export("GenQuery", f"{g}-bfs", "PROG", constants=dict(G=g, NV=2, LeafLimit=12 if quick else 40, MaxLeaves=2, MaxNot=1,
@@ -813,7 +865,7 @@ def check_C05(tier, seed, extra_programs=None):
             if g == "G6":
                 doms = _the_doms(p, W, doms, rng)
             q = mk_query(p, doms)
-            qc.add(W, [q, copy.deepcopy(q)], _c05_events())
+            qc.add(W, [q, copy.deepcopy(q)], _c05_events(rng))
     # rule trees and rules: evaluated under on, on, off, on
     for nv in (1, 2):
         trees = run.export("GenRule", f"trees{nv}", "TREE", constants=dict(MaxNodes=3, NConds=3 if quick else 4, NV=nv),
@@ -826,8 +878,8 @@ def check_C05(tier, seed, extra_programs=None):
                                               {"op": "cfg", "caching": False}, {"op": "rule", "qi": 2}, {"op": "rule", "qi": 1},
                                               {"op": "cfg", "caching": True}, {"op": "rule", "qi": 2}])
     # histories that interleave configuration switches with full, partial and aborted evaluations of two query objects
-    behs = run.export("EvalSession", "cfg-walks", "BEH", constants=dict(NQ=2, MaxLen=6, WithCfg=True), invariants=("Export",),
-                      constraint="Bound", simulate=5000 if quick else 60000, depth=7, count=False)
+    behs = run.export("EvalSession", "cfg-walks", "BEH", constants=dict(NQ=2, MaxLen=7, WithCfg=True, WithBuild=True),
+                      invariants=("Export",), constraint="Bound", simulate=8000 if quick else 90000, depth=8, count=False)
     behs = [b for b in behs if any(o["op"] == "cfg" for o in b)]
     pool = {nv: _programs(run, nv, True, sim_quick=300, tag="-h") for nv in (1, 2)}
     for b in behs:
@@ -888,7 +940,7 @@ def _grammar_check(prop, tier, seed, grammars, rule, nvars, leaf_quick=40, sim_q
             progs = [p for p in progs if needs(p)]
         cap = quick_cap if quick else full_cap
         if len(progs) > cap:
-            progs = rng.sample(progs, cap)
+            progs = _sample(rng, progs, cap)
             run.exhaustive = False
         for p in progs:
             for _ in range(worlds_per_prog[0] if quick else worlds_per_prog[1]):
@@ -1063,7 +1115,8 @@ def check_C13(tier, seed):
                 "domain; each built in predicate form and in explicit form (let + one equality per field), both judged against "
                 "the denotation and against each other; typed variables Base/Mid/Leaf over domains mixing Base, Mid, Leaf "
                 "(undecorated subclass) and a foreign class, declared with let, T(From(d)), a term, several declarations over "
-                "one list or sharing one From instance; non-trivial = result neither empty nor the whole type-filtered domain")
+                "one list or sharing one From instance; a class with a keyword-only field between two positional ones "
+                "(field order differs from constructor order); non-trivial = result neither empty nor the whole type-filtered domain")
     run.assumptions = QUERY_ASSUMPTIONS
     qc = QueryCheck(run)
     fprogs = run.export("GenTerm", "fields", "PROG", constants=dict(Part="fields"), invariants=("Export", "PositionalIsPrefix"))
@@ -1076,6 +1129,16 @@ def check_C13(tier, seed):
             q1 = mk_term_query(p, doms)
             q2 = mk_term_query(p, doms, build="explicit")
             qc.add(W, [q1, q2], [drain_ev(1), drain_ev(2, eqto=1), drain_ev(1, eqto=1)])
+    # a class whose field order differs from its constructor's parameter order (a keyword-only field in between)
+    kprogs = run.export("GenTerm", "kwonly", "PROG", constants=dict(Part="kwonly"), invariants=("Export", "PositionalIsPrefix"))
+    for p in kprogs:
+        for _ in range(reps * 2):
+            n = rng.randint(3, 7)
+            W = {"objs": [{"cls": "K", "f": {"a": datasets.iv(rng.choice([0, 1])), "w": datasets.iv(rng.choice([0, 1, 2])),
+                                             "b": datasets.iv(rng.choice([0, 1, 2]))}} for _ in range(n)]}
+            dom = rng.sample(range(1, n + 1), rng.randint(2, n))
+            qc.add(W, [mk_term_query(p, [dom]), mk_term_query(p, [dom], build="explicit")],
+                   [drain_ev(1), drain_ev(2, eqto=1), drain_ev(1, eqto=1)], tag="kwonly")
     for p in tprogs:
         for _ in range(reps * 4):
             n = rng.randint(3, 7)
@@ -1135,7 +1198,7 @@ def check_C11(tier, seed):
                         simulate=500 if quick else 8000, depth=12 if quick else 18)
     cap = 2500 if quick else 40000
     if len(progs) > cap:
-        progs = rng.sample(progs, cap)
+        progs = _sample(rng, progs, cap)
         run.exhaustive = False
     for p in progs:
         for _ in range(1 if quick else 2):
@@ -1257,7 +1320,7 @@ def check_C09(tier, seed):
         progs = _with_pred(progs)
         cap = 700 if quick else 15000
         if len(progs) > cap:
-            progs = rng.sample(progs, cap)
+            progs = _sample(rng, progs, cap)
             run.exhaustive = False
         for p in progs:
             W, doms = _world_and_doms(rng, nv, quick)
@@ -1335,7 +1398,7 @@ def check_C18(tier, seed):
             simulate=500 if quick else 8000, depth=14 if quick else 22)
         cap = 600 if quick else 12000
         if len(progs) > cap:
-            progs = rng.sample(progs, cap)
+            progs = _sample(rng, progs, cap)
             run.exhaustive = False
         for pr in progs:
             p = pr["orig"]
